@@ -7,7 +7,7 @@ from ..sched import replay_case, run_case
 from ..spaces import cflag_variants, desc_prio, flag_falsy_variants, kinds_all, kinds_rotating, shard_iter
 
 ID = "C02"
-BUDGET = {"quick": 100, "thorough": 900}
+BUDGET = {"quick": 240, "thorough": 900}
 MONITORS = [mon_c02]
 
 
